@@ -383,7 +383,7 @@ func (s *Sim) ready(t *Task) bool {
 		return s.findLock(t.wptr) < 0
 	case wRLock:
 		i := s.findLock(t.wptr)
-		return i < 0 || !s.locks[i].writer
+		return (i < 0 || !s.locks[i].writer) && !s.writerWaiting(t.wptr)
 	case wOnce:
 		i := s.findOnce(t.wptr)
 		return i < 0 || s.onces[i].state == 2
@@ -948,6 +948,19 @@ func Unlock(m *sync.Mutex) {
 	}
 }
 
+// writerWaiting: some task is blocked in Lock on the RWMutex at p.
+//
+//go:norace
+func (s *Sim) writerWaiting(p unsafe.Pointer) bool {
+	for i := 0; i < s.ntasks; i++ {
+		t := s.tasks[i]
+		if t.state == tsBlocked && t.wk == wLock && t.wptr == p {
+			return true
+		}
+	}
+	return false
+}
+
 // RWLock replaces (*sync.RWMutex).Lock.
 //
 //go:norace
@@ -1006,7 +1019,9 @@ func RLock(m *sync.RWMutex) {
 	t := s.curTask()
 	for {
 		i := s.findLock(p)
-		if (i < 0 || !s.locks[i].writer) && m.TryRLock() {
+		// like sync.RWMutex, a writer that is waiting keeps new readers out (so a
+		// task that read-locks twice deadlocks when a writer arrives in between)
+		if (i < 0 || !s.locks[i].writer) && !s.writerWaiting(p) && m.TryRLock() {
 			s.addLock(p, false)
 			s.ev(EvLock, int64(t.ID), 2)
 			return
